@@ -13,7 +13,9 @@
 (* fields feed C13 (wrap-and-sort) and C14.                                *)
 (***************************************************************************)
 EXTENDS Rel, Json
-CONSTANT Big       \* TRUE: larger cover (thorough)
+CONSTANT Big,      \* TRUE: larger cover (thorough)
+         NRand     \* number of randomly drawn LARGER fields (up to 4 entries x 3 alternatives, 3 architectures,
+                   \* 3 profile groups of up to 3 terms, every layout mixed) - drawn with TLC's RandomElement
 
 Tk(k, e, r, role, g, neg) == [k |-> k, e |-> e, r |-> r, role |-> role, g |-> g, neg |-> neg]
 W  == Tk("WHITESPACE", 0, 0, "ws", 0, FALSE)
@@ -132,6 +134,24 @@ E0 == [k |-> "0", vs |-> <<>>]
 DefC == << <<>>, <<W>> >>
 DefP == << <<W>>, <<W>> >>
 
+\* ---- randomly drawn larger fields (the bounded-exhaustive part above keeps counts small)
+BigArchSets == ArchSets \cup { <<FALSE, FALSE, TRUE>>, <<TRUE, TRUE, TRUE>>, <<FALSE, FALSE, FALSE>> }
+BigProfSets == ProfSets \cup { << <<FALSE, TRUE, FALSE>> >>, << <<FALSE>>, <<TRUE>>, <<FALSE, TRUE>> >>, << <<TRUE, TRUE>>, <<FALSE>> >> }
+BigV == { v \in { RV(aq, op, ep, ha, ar, pr) : aq \in BOOLEAN, op \in 0..5, ep \in BOOLEAN, ha \in BOOLEAN,
+                                               ar \in BigArchSets \cup {<<>>}, pr \in BigProfSets } :
+          (v.op = 0 => ~v.epoch) /\ (v.hasArch <=> v.archs # <<>>) }
+\* every random draw is made once, inside the set the bound variable rnd ranges over (a LET would be re-evaluated,
+\* and re-drawn, at every reference); everything else is a deterministic function of rnd
+RandInit ==
+  \E i \in 1..NRand :
+  \E rnd \in { [n |-> RandomElement(1..4),
+                 it |-> [j \in 1..4 |-> [c |-> RandomElement(1..10), m |-> RandomElement(1..3), vs |-> [r \in 1..3 |-> RandomElement(BigV)]]],
+                 s |-> RandomElement(1..4), cs |-> RandomElement(CommaStyles), ps |-> RandomElement(PipeStyles), tc |-> RandomElement(BOOLEAN)] } :
+    LET items == [j \in 1..rnd.n |-> IF rnd.it[j].c = 1 THEN E0 ELSE IF rnd.it[j].c = 2 THEN SV
+                                      ELSE [k |-> "E", vs |-> SubSeq(rnd.it[j].vs, 1, rnd.it[j].m)]]
+        hasSv == \E e \in 1..Len(items) : items[e].k = "S"
+    IN InitWith(MkCase(Field(items, rnd.s, rnd.cs, rnd.ps, <<>>, rnd.tc, <<>>), items, hasSv))
+
 MCInit ==
   \* every single relation of the option lattice, in each inner layout
   \/ \E v \in GoodV : \E s \in (IF v.aq THEN 1..4 ELSE 1..3) : InitWith(MkCase(Field(<<E1(v)>>, s, DefC, DefP, <<>>, FALSE, <<>>), <<E1(v)>>, FALSE))
@@ -147,6 +167,7 @@ MCInit ==
   \/ \E v \in FewV, cs \in CommaStyles, pos \in 1..3 :
        LET items == IF pos = 1 THEN <<SV, E1(v)>> ELSE IF pos = 2 THEN <<E1(v), SV>> ELSE <<E1(v), SV, E2(Simple, v)>> IN
        InitWith(MkCase(Field(items, 1, cs, DefP, <<>>, FALSE, <<>>), items, TRUE))
+  \/ RandInit
   \* larger cover
   \/ Big /\ \E v \in GoodV, w \in FewV, s \in 1..3, ps \in PipeStyles :
        LET items == <<E2(v, w)>> IN InitWith(MkCase(Field(items, s, DefC, ps, <<>>, FALSE, <<>>), items, FALSE))
